@@ -6,6 +6,7 @@ import (
 	"net"
 	"net/netip"
 	"sort"
+	"time"
 
 	"golang.org/x/sys/unix"
 )
@@ -15,6 +16,7 @@ type NetWorld struct {
 	Scripts  []FlowScript // by order of flow appearance (cycled)
 	Noise    []NoiseItem
 	Muts     []MutSpec
+	Flood    *FloodSpec
 	Strict   bool // whether quoted-source perturbations are must-reject
 	Sack     *SackServer
 	flows    map[string]*flowSt
@@ -78,6 +80,10 @@ func (n *NetWorld) OnProbe(w *Wire, sink int, raw []byte, p *Probe, perr error, 
 	}
 	fs := n.flow(p)
 	ttl := int(p.TTL)
+	var out []Sched
+	if n.Flood != nil && len(fs.probes) == 0 {
+		out = append(out, n.Flood.packets(p.Raw, p.IP.Src, p.IP.V6)...)
+	}
 	if _, dup := fs.probes[ttl]; !dup {
 		fs.probes[ttl] = p
 	}
@@ -86,7 +92,6 @@ func (n *NetWorld) OnProbe(w *Wire, sink int, raw []byte, p *Probe, perr error, 
 	}
 	sc := n.script(fs.idx)
 	h := sc.Hop(ttl)
-	var out []Sched
 	reached := sc.DestDist > 0 && ttl >= sc.DestDist
 	if !h.Silent {
 		var data []byte
@@ -438,6 +443,9 @@ func (s *SackServer) synAcks(n *NetWorld, remote netip.AddrPort) []Sched {
 		data := tcpReply(src.Addr(), src.Port(), dst.Addr(), dst.Port(), c.ServerISN^0x55, c.ClientNxt+0x01000000, flags, opts)
 		out = append(out, Sched{Delay: us(c.SynAckUs) / 2, Data: data, Tag: Tag{Class: "perturbed", MustReject: true, Field: "synack-" + x.Kind, Flow: key, ID: i}})
 	}
+	if n.Flood != nil {
+		out = append(out, n.Flood.packets(nil, remote.Addr(), false)...)
+	}
 	genuineSynAck := tcpReply(s.Addr.Addr(), s.Addr.Port(), remote.Addr(), remote.Port(), c.ServerISN, c.ClientNxt, TCPSyn|TCPAck, opts)
 	for _, m := range n.Muts {
 		if m.Anchor == 0 {
@@ -486,5 +494,66 @@ func (s *SackServer) acceptDrain() {
 func (n *NetWorld) flowsSorted() []string {
 	out := append([]string(nil), n.Order...)
 	sort.Strings(out)
+	return out
+}
+
+// FloodSpec is a burst of irrelevant or malformed packets at a finite rate.
+type FloodSpec struct {
+	RatePerMs  int    `json:"rate_per_ms"`
+	DurationMs int    `json:"duration_ms"`
+	Kind       string `json:"kind"` // mix | icmp-foreign | garbage | short | tcp-foreign | udp
+}
+
+func (f *FloodSpec) packets(probe []byte, local netip.Addr, v6 bool) []Sched {
+	n := f.RatePerMs * f.DurationMs
+	if n > 60000 {
+		n = 60000
+	}
+	kinds := []string{f.Kind}
+	if f.Kind == "mix" || f.Kind == "" {
+		kinds = []string{"icmp-foreign", "garbage", "short", "tcp-foreign", "udp"}
+	}
+	out := make([]Sched, 0, n)
+	for i := 0; i < n; i++ {
+		k := kinds[i%len(kinds)]
+		var data []byte
+		switch k {
+		case "icmp-foreign":
+			if probe != nil {
+				q := append([]byte(nil), probe...)
+				if v6 {
+					q[39] ^= byte(1 + i%200)
+				} else {
+					q[19] ^= byte(1 + i%200)
+				}
+				data = icmpError(poisonAddr(v6, i), local, FormSpec{}, quoteOf(q, FormSpec{}))
+			} else {
+				data = []byte{0x45, 0, 0, 28, 0, 0, 0, 0, 64, 1, 0, 0, 9, 9, 9, 9, 127, 0, 0, 1, 11, 0, 0, 0, 0, 0, 0, 0}
+			}
+		case "garbage":
+			data = make([]byte, 20+i%50)
+			for j := range data {
+				data[j] = byte(i*31 + j*7)
+			}
+			if i%2 == 0 {
+				data[0] = 0x45
+			}
+		case "short":
+			data = make([]byte, 1+i%9)
+			data[0] = byte(0x40 + i%0x30)
+		case "tcp-foreign":
+			src := netip.AddrFrom4([4]byte{127, 200, byte(i >> 8), byte(i)})
+			dst := local
+			if !dst.Is4() {
+				dst = netip.AddrFrom4([4]byte{127, 0, 0, 1})
+			}
+			data = tcpReply(src, uint16(1000+i%5000), dst, uint16(2000+i%7000), uint32(i), uint32(i*3), TCPSyn|TCPAck, []byte{2, 4, 5, 0xb4, 4, 2, 1, 1})
+		default:
+			ip := &IPPacket{Src: netip.AddrFrom4([4]byte{9, 9, byte(i >> 8), byte(i)}), Dst: netip.AddrFrom4([4]byte{192, 0, 2, 2}), TTL: 9, Proto: ProtoUDP, Payload: []byte{0, 53, 0, 53, 0, 8, 0, 0}}
+			data = ip.Encode(EncodeOpts{})
+		}
+		d := time.Duration(i) * time.Millisecond / time.Duration(max(f.RatePerMs, 1))
+		out = append(out, Sched{Delay: d, Data: data, Tag: Tag{Class: "flood", Field: k}})
+	}
 	return out
 }
